@@ -98,8 +98,12 @@ def check_case(ctx, case):
     near_tol = np.nanmin(np.abs(ang - case['tolerance'] / 2)) < 1e-7
     bwv = float(base.bandwidth)
     near_bw = case['directional_model'] == 'triangle' and np.min(np.abs(off - bwv / 2)) < 1e-9 * max(1.0, bwv)
-    edges_near = len(o0[0]) and np.min(np.abs(d0[mask0][:, None] - o0[0][None, :])) < 1e-9 * max(1.0, d0.max()) \
-        if mask0.any() else False
+    # a distance *exactly* on an edge is there by construction (largest selected distance = last `even` edge, a quantile
+    # that is a data point) and stays there under rotation; only near misses can flip a class through rounding
+    gap = np.abs(d0[mask0][:, None] - o0[0][None, :]) if (mask0.any() and len(o0[0])) else np.ones((1, 1))
+    tol_ = 1e-9 * max(1.0, d0.max())
+    # ... provided it is a single pair: tied distances (lattices) split differently once rotation perturbs them
+    edges_near = bool(np.any((gap > 0) & (gap < tol_)) or np.any(np.sum(gap < tol_, axis=0) > 1))
     if near_tol or near_bw or edges_near or isinstance(case['bandwidth'], str) and False:
         ctx.count('rotation_skipped_boundary')
     else:
